@@ -7,7 +7,8 @@ import oracles
 
 SAFE = ["Model/Exec.v", "Model/ExecInv.v", "Proofs/ExecSafe.v", "Proofs/ExecCor.v"]
 LIVE = SAFE + ["Proofs/ExecLive.v", "Proofs/ExecMeasure.v", "Proofs/ExecLiveCor.v",
-               "Model/StepExec.v", "Model/DepExec.v", "Model/LiveSpec.v", "Proofs/DepSafe.v", "Proofs/DepLive.v", "Proofs/DepLiveCor.v"]
+               "Model/StepExec.v", "Model/DepExec.v", "Model/LiveSpec.v", "Proofs/DepSafe.v", "Proofs/DepLive.v", "Proofs/DepLiveCor.v",
+               "Proofs/StepSafe.v", "Proofs/StepLive.v", "Proofs/StepLiveCor.v"]
 
 TABLE = {
     "C01": dict(kinds=["block", "step", "dep", "cblock"], oracle=oracles.c01, cone=SAFE, n=(70, 700)),
@@ -21,7 +22,8 @@ TABLE = {
     "C05": dict(kinds=["block", "step", "dep", "cblock", "cstep"], oracle=oracles.c05, cone=LIVE, n=(70, 700)),
     "C06": dict(kinds=["block", "step", "dep", "cblock", "cstep"], oracle=oracles.c06, cone=SAFE, n=(70, 700)),
     "C07": dict(kinds=["step", "dep", "block", "cstep"], oracle=oracles.c07,
-                cone=SAFE + ["Model/StepExec.v", "Proofs/StepSafe.v", "Proofs/DictFacts.v", "Proofs/C10Proofs.v"], n=(90, 800)),
+                cone=SAFE + ["Model/StepExec.v", "Model/LiveSpec.v", "Proofs/StepSafe.v", "Proofs/StepLive.v", "Proofs/StepLiveCor.v",
+                             "Proofs/DictFacts.v", "Proofs/C10Proofs.v"], n=(90, 800)),
     "C11": dict(kinds=["block", "step", "dep", "cblock", "cstep"], oracle=oracles.c11, cone=SAFE + ["Model/StepExec.v", "Proofs/StepSafe.v"], n=(70, 700)),
     "C12": dict(kinds=["block", "step", "dep", "cblock", "cstep"], oracle=oracles.c12, cone=LIVE, n=(70, 700)),
 }
